@@ -32,17 +32,40 @@ def jsonStr (s : String) : String :=
 def stateOfCode (code : String) : String :=
   if code == "H" then "hopeful" else if code == "D" then "defeated" else if code == "W" then "withdrawn" else "elected"
 
-/-- one candidate's entry; `ever` = the candidate has been elected at some point up to this snapshot -/
+/-- when `Candidate.as_dict(rw=True)` puts a key into the dictionary -/
+inductive DCond
+  | always                                 -- unconditionally
+  | notWithdrawn                           -- inside `if self.state != 'withdrawn':`
+  | notWithdrawnAndSet (attr : String)     -- ... and inside `if self.<attr> is not None:`
+deriving DecidableEq, Repr
+
+/-- `as_dict(rw=True)`: key, the attribute (or `code()`) it shows, and when — in source order (harness/gen_asdict.py regenerates this
+    table from candidate.py and the kernel checks it equal on every C18 run) -/
+def asDictTable : List (String × String × DCond) :=
+  [("state", "state", .always), ("code", "code()", .always), ("vote", "vote", .notWithdrawn),
+   ("kf", "kf", .notWithdrawnAndSet "kf"), ("quotient", "quotient", .notWithdrawnAndSet "quotient"),
+   ("pending", "pending", .notWithdrawnAndSet "pending")]
+
+def DCond.holds (isW : Bool) (isSet : String → Bool) : DCond → Bool
+  | .always => true
+  | .notWithdrawn => !isW
+  | .notWithdrawnAndSet a => !isW && isSet a
+
+/-- one candidate's entry; `ever` = the candidate has been elected at some point up to this snapshot (`pending` is then no longer None).
+    The keys are those of `asDictTable` whose condition holds, sorted (`sort_keys=True`). -/
 def jsonCand (strV : α → String) (ind : String) (ever : Bool) (e : Nat × String × α × Option α × Option α) : String :=
   let kv (k v : String) := ind ++ "  " ++ jsonStr k ++ ": " ++ v
-  let items : List String :=
-    [kv "code" (jsonStr e.2.1)]
-    ++ (if e.2.1 == "W" then [] else
-          (match e.2.2.2.1 with | some k => [kv "kf" (jsonStr (strV k))] | none => [])
-          ++ (if ever then [kv "pending" (if e.2.1 == "e" then "true" else "false")] else [])
-          ++ (match e.2.2.2.2 with | some q => [kv "quotient" (jsonStr (strV q))] | none => []))
-    ++ [kv "state" (jsonStr (stateOfCode e.2.1))]
-    ++ (if e.2.1 == "W" then [] else [kv "vote" (jsonStr (strV e.2.2.1))])
+  let isSet (a : String) : Bool := if a == "kf" then e.2.2.2.1.isSome else if a == "quotient" then e.2.2.2.2.isSome else if a == "pending" then ever else false
+  let value (attr : String) : String :=
+    if attr == "state" then jsonStr (stateOfCode e.2.1)
+    else if attr == "code()" then jsonStr e.2.1
+    else if attr == "vote" then jsonStr (strV e.2.2.1)
+    else if attr == "kf" then (match e.2.2.2.1 with | some k => jsonStr (strV k) | none => "null")
+    else if attr == "quotient" then (match e.2.2.2.2 with | some q => jsonStr (strV q) | none => "null")
+    else if attr == "pending" then (if e.2.1 == "e" then "true" else "false")
+    else "null"
+  let items := ((asDictTable.filter (fun r => r.2.2.holds (e.2.1 == "W") isSet)).mergeSort (fun a b => a.1 ≤ b.1)).map
+    (fun r => kv r.1 (value r.2.1))
   ind ++ jsonStr (toString e.1) ++ ": {\n" ++ ",\n".intercalate items ++ "\n" ++ ind ++ "}"
 
 def jsonAction (strV : α → String) (m : Method) (ever : List Nat) (msg : String) (a : Act α) : String :=
